@@ -69,11 +69,8 @@ func pairMatrix(owner string, thorough bool) []*engine.SScenario {
 		if pairOwner(a, b) != owner {
 			return
 		}
-		// a connection removal while a message of that very connection is still being processed is
-		// outside the statements (C10 speaks about the state after the removal)
-		if (opKind(a) == "disc" && opPeer(b) == opPeer(a)) || (opKind(b) == "disc" && opPeer(a) == opPeer(b) && opKind(a) != "disc") {
-			return
-		}
+		// (a connection removal while the reader of that very connection is still processing a message is part of
+		// the matrix: the outcome must be that of "message, then removal" or of "removal, then the message is dropped")
 		for _, pn := range []string{"empty", "full"} {
 			if !thorough && pn == "empty" {
 				rejected := func(op string) bool {
@@ -87,7 +84,8 @@ func pairMatrix(owner string, thorough bool) []*engine.SScenario {
 					continue
 				}
 			}
-			sc := linScenario(pairPreludes[pn], [][]string{{a}, {b}}, pairProbes)
+			same := (opKind(a) == "disc" && opPeer(b) == opPeer(a) && opKind(b) != "disc") || (opKind(b) == "disc" && opPeer(a) == opPeer(b) && opKind(a) != "disc")
+			sc := linScenarioOpt(pairPreludes[pn], [][]string{{a}, {b}}, pairProbes, same)
 			sc.Name = "pair[" + pn + "] " + a + " || " + b
 			// teardowns are long operations: the quick tier explores these pairs up to one deviation
 			sc.Heavy = owner == "C10"
